@@ -351,26 +351,29 @@ fn check_sequence(rep: &mut Report, w: &W, range: Option<R>, frags: &[&str], cas
     let mut pos = 0usize;
     let mut want: Option<Vec<R>> = Some(vec![]);
     for f in frags {
-        let fl: Vec<char> = if case_sensitive { f.chars().collect() } else { f.to_lowercase().chars().collect() };
-        let mut found = None;
+        // (without regard to case: the stretch of the text whose lower-casing is the lower-cased fragment; lower-casing may
+        // change the number of code points, so the stretch need not be as long as the fragment)
+        let fl: String = if case_sensitive { f.to_string() } else { f.to_lowercase() };
+        let mut found: Option<(usize, usize)> = None;
         let mut i = pos;
-        while i + fl.len() <= cs.len() {
-            let cand: Vec<char> = if case_sensitive { cs[i..i + fl.len()].to_vec() } else { cs[i..i + fl.len()].iter().collect::<String>().to_lowercase().chars().collect() };
-            if cand == fl { found = Some(i); break; }
+        'scan: while i < cs.len() {
+            for j in i + 1..=cs.len() {
+                let cand: String = if case_sensitive { cs[i..j].iter().collect() } else { cs[i..j].iter().collect::<String>().to_lowercase() };
+                if cand == fl { found = Some((i, j)); break 'scan; }
+                if cand.len() > fl.len() + 8 { break; }
+            }
             i += 1;
         }
         match found {
-            Some(i) if cs[pos..i].iter().all(|c| skip(*c)) => {
-                want.as_mut().unwrap().push((b + i, b + i + fl.len()));
-                pos = i + fl.len();
+            Some((i, j)) if cs[pos..i].iter().all(|c| skip(*c)) => {
+                want.as_mut().unwrap().push((b + i, b + j));
+                pos = j;
             }
             _ => { want = None; break; }
         }
     }
     let sub: String = cs.iter().collect();
-    if !case_sensitive && (lower_changes_len(&sub) || frags.iter().any(|f| lower_changes_len(f))) {
-        return; // covered by the nocase known finding
-    }
+    let _ = &sub;
     if frags.iter().any(|f| f.is_empty()) {
         return;
     }
